@@ -2,7 +2,7 @@
 # Build the analysis venv offline: /venv's python + its site-packages + crosshair-tool from the wheelhouse.
 set -e
 cd "$(dirname "$0")"
-V=/verif/.venv
+V="$(pwd)/.venv"
 if [ -x "$V/bin/python" ] && "$V/bin/python" -c "import crosshair, z3, sqlalchemy" 2>/dev/null; then
   exit 0
 fi
